@@ -32,7 +32,7 @@ type DiffCase struct {
 type LargeGen struct {
 	OldKind string `json:"old_kind"` // p1 | p3 | p256 | rand
 	Size    int    `json:"size"`
-	NewKind string `json:"new_kind"` // same prefix suffix kth moved unrelated empty longer
+	NewKind string `json:"new_kind"` // same prefix suffix kth inserts shuffled moved unrelated empty longer
 }
 
 func digits(s string) []byte {
@@ -80,6 +80,25 @@ func (g *LargeGen) materialize(seed int64) (old, nw []byte) {
 		for i := k - 1; i < n; i += k {
 			nw[i] ^= 0x80
 		}
+	case "inserts":
+		// a few fresh bytes inserted every ~1.5KiB: every 128KiB scan block yields some 85
+		// matches (far more than any channel batch or buffer the scanner may use)
+		for i := 0; i < n; i += 1500 {
+			e := i + 1500
+			if e > n {
+				e = n
+			}
+			nw = append(nw, old[i:e]...)
+			nw = append(nw, byte(i>>3), byte(i>>11)^0x5a, 0x33)
+		}
+	case "shuffled":
+		// 1KiB pieces of old in a scrambled order: every piece is its own match
+		pieces := n / 1024
+		for j := 0; j < pieces; j++ {
+			k := (j*37 + 11) % pieces
+			nw = append(nw, old[k*1024:(k+1)*1024]...)
+		}
+		nw = append(nw, old[pieces*1024:]...)
 	case "moved":
 		nw = append([]byte{}, old[:n/4]...)
 		nw = append(nw, old[n/2:]...)
